@@ -40,6 +40,10 @@ NestedMenu(T) ==
   \* the fields of such a fragment to mark them optional and has to add __typename to the sub-selection it SENDS
   \cup (IF Overlaps("A", T) THEN {Inl("A", "include", <<Fld("friend", "-", "none", <<Leaf("id")>>)>>)} ELSE {})
   \cup (IF T = "A" THEN {Inl("-", "skip", <<Fld("friend", "-", "none", <<Leaf("name")>>)>>)} ELSE {})
+  \* selections nested inside an inline fragment on an interface the position's type implements: they are evaluated for
+  \* the interface but belong to the class of the concrete type (finding F29)
+  \cup (IF T = "A" THEN {Inl("I", "none", <<Inl("A", "none", <<Leaf("a1")>>)>>), Inl("J", "none", <<Spr("FA", "none")>>),
+                         Inl("I", "include", <<Spr("FI", "none"), Leaf("id")>>)} ELSE {})
   \cup (IF Overlaps("D", T) THEN {IF T = "D" THEN Fld("owner", "-", c, s) ELSE Inl("D", "none", <<Fld("owner", "-", c, s)>>) : s \in OwnerMenu, c \in {"none", "include"}} ELSE {})
 Menu(T) == LeafMenu(T) \cup InlineMenu(T) \cup SpreadMenu(T) \cup NestedMenu(T)
 
